@@ -35,7 +35,7 @@ def emit(pid, header, imports, items, extra=""):
     out.append(extra)
     open(os.path.join(ROOT, "coq/theories/Properties/%s.v" % pid), "w").write("\n".join(out))
 
-IMP = "From Sfs Require Import Index ArrayM Scalar Spectrum Project Create IndexP ArrayP BinomP ProjectP CreateP CreateSpecP.\nFrom Coq Require Import Permutation."
+IMP = "From Sfs Require Import Index ArrayM Scalar Spectrum Project Create SampleParse IndexP ArrayP BinomP ProjectP CreateP CreateSpecP SampleParseP.\nFrom Coq Require Import Permutation."
 
 emit("C08", "(* Property C08 - genotype -> allele-count classification is total and exact. Statements + exact + Print Assumptions. *)", IMP, [
  ("called_iff", "CreateP", "classify_called_iff", "a diploid genotype contributes a+b exactly when both alleles are 0 or 1 (phasing is not even an input)"),
@@ -66,6 +66,10 @@ emit("C09", "(* Property C09 - axes follow first appearance of population labels
  ("list_reorder_same_label_order", "CreateSpecP", "build_map_reorder", "reordering list entries while keeping the first-appearance order of labels changes nothing observable"),
  ("map_enters_by_lookup_only", "CreateP", "read_site_map_ext", "the per-record result depends on the map only through lookups by sample name"),
  ("column_order_free", "CreateSpecP", "read_site_column_perm", "reordering the sample columns of the input changes no per-record result"),
+ ("samples_file_equals_inline", "SampleParseP", "file_equiv_inline", "--samples-file and --samples with the same content build the same sample map (names and labels free of the separators)"),
+ ("inline_list_roundtrip", "SampleParseP", "parse_render_inline", "the inline syntax name=label,... denotes the list"),
+ ("samples_file_roundtrip", "SampleParseP", "parse_render_file", "the file syntax name<TAB>label per line denotes the list"),
+ ("samples_file_crlf", "SampleParseP", "parse_file_crlf", "Windows line ends are tolerated"),
  ("empty_list_is_error", "CreateSpecP", "build_reader_empty", "an empty list is an error"),
  ("unknown_sample_is_error", "CreateSpecP", "build_reader_unknown", "a listed sample that is absent from the input is an error"),
 ], extra="""(* non-vacuity: b=B,a=A,c=B gives axes (B: 5, A: 3) *)
@@ -177,7 +181,7 @@ emit("C13", "(* Property C13 - view = marginalize > project > mask > normalize, 
  ("keep_is_remove", "ViewP", "view_keep_is_remove", "--marginalize-keep = --marginalize-remove of the complement"),
 ])
 
-IMP3 = "From Sfs Require Import Index Npy Text NpyP TextP.\nClose Scope string_scope. Open Scope N_scope."
+IMP3 = "From Sfs Require Import Index Npy Text NpyP TextP NpySpellP.\nClose Scope string_scope. Open Scope N_scope."
 
 def emit_n(pid, header, items, extra=""):
     out = [header, IMP3, ""]
@@ -210,6 +214,11 @@ emit_n("C15", "(* Property C15 - npy output conforms to NPY 1.0; reader of the n
  ("file_layout", "NpyP", "write_npy_layout", "then prod(shape) little-endian doubles in C order"),
  ("dict_is_ascii", "NpyP", "fmt_dict_ascii", "the header dict is ASCII"),
  ("dict_parses_to_f8_C_order_shape", "NpyP", "parse_dict_fmt_dict", "the header dict is the Python literal {'descr': '<f8', 'fortran_order': False, 'shape': (...)}: the reader's grammar parses it to exactly that"),
+ ("reader_accepts_any_descr_spelling", "NpySpellP", "parse_descr_entry", "reader: the descr entry in either quote style, any spacing around ':', byte order '<' '|' '>' and all ten dtypes"),
+ ("reader_accepts_any_fortran_spelling", "NpySpellP", "parse_fortran_entry", "reader: the fortran_order entry likewise"),
+ ("reader_accepts_any_shape_spelling", "NpySpellP", "parse_shape_entry", "reader: the shape tuple with any spacing, with or without trailing comma (numpy writes (n,) and (a, b))"),
+ ("reader_accepts_any_key_order", "NpySpellP", "parse_dict_any_order", "reader: the three entries in any order, any spacing after '{' and before '}', optional trailing comma, anything after '}'"),
+ ("reader_header_record_order_free", "NpySpellP", "dict_of_entries_perm", "... all six orders give the same header record"),
  ("le_words", "NpyP", "le_word_le_bytes", "little-endian words decode to themselves"),
  ("integers_exact_below_2_53", "NpyP", "f64_of_N_exact", "integer dtypes: values up to 2^53 are converted exactly"),
  ("fortran_order_rejected", "NpyP", "npy_fortran_rejected_fixed", "Fortran-ordered files are rejected"),
